@@ -168,6 +168,21 @@ extend("C12", "a DNAME ping-pong between two zones is followed at most the DNAME
 extend("C14", "no DS match for an owner name that does not fit 255 wire octets (the library cannot produce a DS for it).")
 extend("C20", "PTR translation with an overlapping shorter prefix listed first still reaches the prefix the address was synthesised under.")
 
+# ---- sixth round ----
+extend("C02", "the RFC 8198 classifier (EvaluateAggressiveNSEC), whose verdicts become shared negative-cache state, is sound on the same zone model for every subset of the chain; shared denial state is neither consulted nor created by ECS/CD requests or their trees (shared with C19).")
+extend("C05", "the OPT the byte path appends decodes to the OPT the message path attaches for the same client facts (size, DO, version, options incl. a server cookie over the same hashed octets, NSID, keepalive, Extended DNS Error) and AD is shaped alike.")
+extend("C13", "kill switch: with rfc9520 off none of the Store's nine doors to failure state records, resets or serves anything; with it on each reaches the table once.")
+extend("C19", "a query that carried ECS or CD - or belongs to a tree that did - never consults the subtree-cut or aggressive-proof indexes, and a validated negative answer is published to them only from a plain tree, with local provenance and RFC 8198 eligibility.")
+_STALE4 = {
+ "C19": [("The shared-denial bypass is outside this check.", "The wire path's own shared-denial gate is outside this check.")],
+}
+for _pid, _subs in _STALE4.items():
+    _t, _n, _r = CLAIMED[_pid]
+    for _a, _b in _subs:
+        if _a in _t or _a in _n:
+            _t, _n = _t.replace(_a, _b), _n.replace(_a, _b)
+    CLAIMED[_pid] = (_t, _n, _r)
+
 NA_REASON = "no check registered yet: the solver-based harness for this property is still being built in this session (see DESIGN.md §5 for the plan)"
 def main():
     props = [json.loads(l) for l in open(os.path.join(ROOT, "properties.jsonl"))]
